@@ -37,12 +37,15 @@ CHANGERS = [
 ]
 
 
-def scenario_for(emit, changer, binary):
+def scenario_for(emit, changer, binary, multi=0):
     _, to, skip = emit
     tasks = changer[1]
 
     def scenario(loop):
         loop.setup = True
+        # "two completions in one selector round" deviations: thorough only
+        # (they multiply the number of schedules by ~8 here)
+        loop.multi_budget = multi
         w = ServerWorld(is_async=True, loop=loop, namespaces=['/'])
         sio = w.sio
         ts = [w.new_transport() for _ in range(3)]
@@ -183,7 +186,8 @@ def judge(emit, changer, binary, out):
 
 
 def job(args):
-    ei, ci, binary = args
+    ei, ci, binary = args[:3]
+    multi = args[3] if len(args) > 3 else 0
     common.setup_imports()
     emit, changer = EMITS[ei], CHANGERS[ci]
     viols = []
@@ -195,15 +199,16 @@ def job(args):
             if len(viols) < 3:
                 viols.append((key, msg, {'replay': {
                     'module': 'mc.checks.c03_sched', 'func': 'replay',
-                    'args': [ei, ci, binary, [c[1] for c in choices]]}}))
-    st = e2.explore(scenario_for(emit, changer, binary), on)
+                    'args': [ei, ci, binary, [c[1] for c in choices],
+                             multi]}}))
+    st = e2.explore(scenario_for(emit, changer, binary, multi), on)
     return st, viols, len(outs)
 
 
-def replay(ei, ci, binary, prefix):
+def replay(ei, ci, binary, prefix, multi=0):
     common.setup_imports()
     emit, changer = EMITS[ei], CHANGERS[ci]
-    choices, out = e2.run_one(scenario_for(emit, changer, binary),
+    choices, out = e2.run_one(scenario_for(emit, changer, binary, multi),
                               list(prefix))
     return judge(emit, changer, binary, out)
 
@@ -212,8 +217,8 @@ def run(tier, seed, result):
     jobs = []
     for ei in range(len(EMITS)):
         for ci in range(len(CHANGERS)):
-            jobs.append((ei, ci, False))
-    jobs.append((0, 0, True))
+            jobs.append((ei, ci, False, 0 if tier == 'quick' else 1))
+    jobs.append((0, 0, True, 0 if tier == 'quick' else 1))
     total = 0
     outcomes = 0
     for st, viols, n in pmap(job, jobs):
